@@ -21,6 +21,6 @@ for n in "${names[@]}"; do
     if echo "$out" | grep -q "^VIOLATION property=$c "; then echo "$n $c: CAUGHT"; else echo "$n $c: MISSED"; miss=1; fi
   done
   git -C /repo worktree remove --force "$WT"
+  rm -rf "/verif/bin/alt-$(echo "$WT" | md5sum | cut -c1-10)"
 done
-rm -rf /verif/bin/alt-*
 exit $miss
